@@ -581,6 +581,11 @@ func TestVerif(t *testing.T) {
 			continue
 		}
 		w, err := c15StartReceiver(auth)
+		for try := 0; err != nil && try < 5; try++ {
+			// the two free ports are picked and released before the receiver binds them: another process may take one in between
+			time.Sleep(50 * time.Millisecond)
+			w, err = c15StartReceiver(auth)
+		}
 		if err != nil {
 			ctx.Infra("receiver (auth=%s): %v", auth, err)
 			continue
